@@ -184,8 +184,11 @@ def run_c09(res):
             dist["stress"] += st
             dist["dup"] += dup
             dist["jobs"][j] = dist["jobs"].get(j, 0) + 1
-            x = par_check.run_single(bindir, r, P, j, log=log, dup_spelling=dup, stress=st, shuffle=r.random() < 0.2)
-            case = {"shape": shape, "targets": len(P), "jobs": j, "perturbed": st, "same_target_twice": dup, "log_capture": log}
+            reb = r.random() < 0.4
+            dist["rebuild_after_edit"] = dist.get("rebuild_after_edit", 0) + reb
+            x = par_check.run_single(bindir, r, P, j, log=log, dup_spelling=dup, stress=st, shuffle=r.random() < 0.2, rebuild=reb)
+            case = {"shape": shape, "targets": len(P), "jobs": j, "perturbed": st, "same_target_twice": dup, "log_capture": log,
+                    "rebuild_after_edit": reb}
             results = [x["res"]]
             if not x["tokens"].startswith("OK"):
                 viol.append({"case": case, "kind": "trace-validation", "what": "token trace rejected by the model (an assertion of the token book would fail)", "verdict": x["tokens"]})
@@ -201,7 +204,7 @@ def run_c09(res):
                 viol.append({"case": case, "what": "all scripts succeed but a command exited %d" % rr["rc"], "stderr": rr["err"][-600:]})
     finish(res, "C09", proof, {
         "evaluations": n, "distinct_nontrivial": n - dist["jobs"].get(1, 0),
-        "rule": "all-success projects built by one invocation (-j1..8, the same target named several times, shuffle, log capture on/off) or by 2..4 contending invocations; in most runs redo processes are stopped and continued at random (SIGSTOP/SIGCONT) so that child exits, token arrivals and lock hand-overs pile up and are handled in one wake-up; every run must end (bound 90 s) with exit 0, no panic message, no token self-test failure, and its token events must be accepted by the model; non-trivial = more than one job can run at once",
+        "rule": "all-success projects built by one invocation (-j1..8, 40 % as a rebuild after the scripts of a few leaf targets were edited, the same target named several times, shuffle, log capture on/off) or by 2..4 contending invocations; in most runs redo processes are stopped and continued at random (SIGSTOP/SIGCONT) so that child exits, token arrivals and lock hand-overs pile up and are handled in one wake-up; every run must end (bound 90 s) with exit 0, no panic message, no token self-test failure, and its token events must be accepted by the model; non-trivial = more than one job can run at once",
         "samples": samples, "input_distribution": dist, "token_events_replayed": tok_events}, viol)
     res.assumptions = ["the OS schedules every runnable process eventually; SQLite's 60 s busy timeout is not reached", "dependency graphs without cycles (cycles: C12)"]
 
